@@ -577,7 +577,15 @@ spif_ustr_prepend(spif_ustr_t self, spif_ustr_t other)
     REQUIRE_RVAL(!SPIF_USTR_ISNULL(other), FALSE);
     if (other->size && other->len) {
         self->size += other->size - 1;
+        if (self->size <= self->len + other->len) {
+            /* A still-empty string has no room for the terminator yet. */
+            self->size = self->len + other->len + 1;
+        }
         self->s = (spif_charptr_t) REALLOC(self->s, self->size);
+        if (!self->len) {
+            /* Nothing stored yet (maybe not even a terminator to move). */
+            self->s[0] = 0;
+        }
         memmove(self->s + other->len, self->s, self->len + 1);
         memcpy(self->s, SPIF_USTR_STR(other), other->len);
         self->len += other->len;
@@ -591,10 +599,16 @@ spif_ustr_prepend_char(spif_ustr_t self, spif_char_t c)
     ASSERT_RVAL(!SPIF_USTR_ISNULL(self), FALSE);
     self->len++;
     if (self->size <= self->len) {
-        self->size++;
+        /* Room for the text and its terminator, even if the string was still empty. */
+        self->size = self->len + 1;
         self->s = (spif_charptr_t) REALLOC(self->s, self->size);
     }
-    memmove(self->s + 1, self->s, self->len + 1);
+    if (self->len == 1) {
+        /* Nothing stored yet (maybe not even a terminator to move). */
+        self->s[0] = 0;
+    }
+    /* Move the old text and its terminator:  (len - 1) + 1 bytes. */
+    memmove(self->s + 1, self->s, self->len);
     self->s[0] = (spif_uchar_t) c;
     return TRUE;
 }
@@ -609,7 +623,15 @@ spif_ustr_prepend_from_ptr(spif_ustr_t self, spif_charptr_t other)
     len = strlen((const char *) other);
     if (len) {
         self->size += len;
+        if (self->size <= self->len + len) {
+            /* A still-empty string has no room for the terminator yet. */
+            self->size = self->len + len + 1;
+        }
         self->s = (spif_charptr_t) REALLOC(self->s, self->size);
+        if (!self->len) {
+            /* Nothing stored yet (maybe not even a terminator to move). */
+            self->s[0] = 0;
+        }
         memmove(self->s + len, self->s, self->len + 1);
         memcpy(self->s, other, len);
         self->len += len;
